@@ -205,6 +205,22 @@ def run(tier, seed):
             with torch.no_grad():
                 t_._weight.copy_(torch.eye(4, dtype=dt) * sc + torch.ones(4, 4, dtype=dt) * sc * 0.1)
             big.append(("NaiveLinear(4, entries %g) %s" % (sc, dt), t_))
+    # parameters far out (log-diagonals of +-18, unconstrained diagonals of +-30): a guard on one accessor only makes the accessors
+    # describe different maps
+    for dt in (torch.float64,):
+        t_ = qr.QRLinear(3, num_householder=2).to(dt)
+        with torch.no_grad():
+            t_.log_upper_diag.copy_(torch.tensor([18.5, -17.0, 0.3], dtype=dt))
+            t_.upper_entries.copy_(torch.tensor([0.5, -0.3, 0.2], dtype=dt)[:t_.upper_entries.numel()])
+        big.append(("QRLinear(3, log diagonal 18.5, -17, 0.3) %s" % dt, t_))
+        t_ = lu.LULinear(3, identity_init=False).to(dt)
+        with torch.no_grad():
+            t_.unconstrained_upper_diag.copy_(torch.tensor([30.0, -25.0, 0.3], dtype=dt))
+        big.append(("LULinear(3, unconstrained diagonal 30, -30, 0.3) %s" % dt, t_))
+        t_ = svd.SVDLinear(3, num_householder=2, identity_init=False).to(dt)
+        with torch.no_grad():
+            t_.unconstrained_diagonal.copy_(torch.tensor([30.0, -25.0, 0.3], dtype=dt))
+        big.append(("SVDLinear(3, unconstrained diagonal 30, -30, 0.3) %s" % dt, t_))
     for name, t in big:
         t.eval()
         dt = next(t.parameters()).dtype
